@@ -183,7 +183,7 @@ func returnedStrings(fn *ssa.Function) []string {
 
 func c20(c *core.Check) {
 	p := c.Prog
-	c.Explain = "Structural necessary conditions of serialize/re-tokenize round-tripping: the separator table contains every pair of adjacent token kinds that would fuse with this tokenizer (CSS Syntax 3 §9 table, each row confirmed); its vocabulary is what Kind.String() and literal tokens can produce, so no row is silently dead; every ParseError kind the tokenizer can put in a token list is serialisable; the string, url and name escapers cover the characters CSS Syntax §4.3 requires. Identifier-start escaping, the scientific-notation unit ambiguity and numeric representation are not decided."
+	c.Explain = "Structural necessary conditions of serialize/re-tokenize round-tripping: the separator table contains every pair of adjacent token kinds that would fuse with this tokenizer (CSS Syntax 3 §9 table, each row confirmed); its vocabulary is what Kind.String() and literal tokens can produce, so no row is silently dead; every ParseError kind the tokenizer can put in a token list is serialisable; the string, url and name escapers cover the characters CSS Syntax §4.3 requires. Also decided: an escaped leading digit ends with a space, the character after a leading dash goes through the identifier-start escaping, exponent-like units are escaped with the letter's own code, and the fusing pairs of literal tokens computed from the tokenizer's vocabulary are in the table. Numeric representation of values built in code is not decided."
 	r1 := c.Rule("R1", "parser.badPairs (its init loops evaluated as a cross product of literals, no execution) contains every fusing pair of the §9 table", 60)
 	bp, err := evalBadPairs(p)
 	if err != nil {
